@@ -364,6 +364,12 @@ func (e *Element) EncodeUncompressed() []byte {
 
 // using this outlining saves an allocation...
 func (e *Element) fillUncompressed(in *[elementLengthUncompressed]byte) []byte {
+	// The point at infinity has no affine coordinates: SEC1 encodes it as the single byte 0x00 (as Encode does),
+	// which is also the only encoding of it that Decode accepts.
+	if e.IsIdentity() {
+		return append(in[:0], encodingPrefixIdentity)
+	}
+
 	affine := e.affine()
 	out := append(in[:0], encodingPrefixUncompressed) //nolint:gocritic
 	out = append(out, affine.x.Bytes()...)
